@@ -173,6 +173,17 @@ class ChildrenList(list):
                     f"its constructor predefined the parent reference to a "
                     f"different '{item.parent.coloured_name(False)}' node.")
 
+        # The item must not be this node or one of its ancestors (that would
+        # create a cycle in the tree).
+        cursor = self._node_reference
+        while cursor is not None:
+            if cursor is item:
+                raise GenerationError(
+                    f"Item '{item.coloured_name(False)}' can't be added as "
+                    f"child of '{self._node_reference.coloured_name(False)}' "
+                    f"because it is that node or one of its ancestors.")
+            cursor = cursor.parent
+
     def _set_parent_link(self, node):
         '''
         Set parent connection of the given node to this ChildrenList's node.
